@@ -91,12 +91,15 @@ def fifolate(mp, P):
 def dispatcher(mp, P):
     return {"harness": "vxH08Dispatcher", "args": [str(mp)], "files": F08, "preempt": P, "reach": ["done"], "timeout_s": 1500,
             "bounds": f"an implementation answering from one dispatcher goroutine: two requests sharing a symbolic tag (the second slow inside the implementation) and an unrelated request; Maxpend={mp}; <= {P} preemptions"}
-q08 = [spawn(0), spawn(2), fifolate(0, 1), fifolate(2, 1), dispatcher(0, 1), dispatcher(2, 1)]
+def reset08(wn, P):
+    return {"harness": "vxH03Reset", "args": [str(wn)], "files": ["api", "ref_wire", "kit_srv", "kit_net", "reset_c03"], "preempt": P, "reach": ["done"], "timeout_s": 1500,
+            "bounds": f"tag groups across a session reset: a Tversion in mid-session while one request is held in the implementation and {wn} more wait behind it under the same tag; afterwards requests reusing that tag are started and answered; <= {P} preemptions"}
+q08 = [reset08(1, 1), reset08(2, 0), spawn(0), spawn(2), fifolate(0, 1), fifolate(2, 1), dispatcher(0, 1), dispatcher(2, 1)]
 q08 += [{"harness": "vxH08NoLockTwin", "args": [], "files": F08, "reach": ["twin"], "bounds": "twin: a call into the implementation made with a lock held is detected"}]
 q08 += [nolock(t, a, f) for t in TT for (a, f) in ((True, True), (False, False))]
 q08 += [block(2, 0, False, True, True, 1), block(2, 2, True, True, True, 0), block(2, 0, False, True, False, 0),
         fifo(2, 0, False, False, 1), fifo(2, 2, True, False, 0), fifo(3, 0, False, True, 0), fifo(4, 0, False, True, 0, fsw=1), fifo(6, 2, False, True, 0, fsw=0)]
-t08 = list(q08) + [nolock(t, a, f) for t in TT for (a, f) in ((True, False), (False, True))]
+t08 = list(q08) + [reset08(2, 1), reset08(3, 1)] + [nolock(t, a, f) for t in TT for (a, f) in ((True, False), (False, True))]
 t08 += [block(3, 0, True, True, True, 0), block(3, 2, True, True, True, 0), block(2, 0, True, True, False, 0), block(2, 2, False, True, True, 1),
         block(2, 0, False, False, True, 1), block(3, 2, False, True, False, 0), block(3, 0, False, True, True, 1), block(2, 0, False, True, False, 1),
         fifo(3, 0, True, True, 0), fifo(3, 2, True, False, 0), fifo(3, 0, False, True, 1), fifo(3, 2, False, True, 1), fifo(2, 2, False, False, 1), fifo(2, 0, True, True, 1), fifo(8, 0, False, True, 0, fsw=-1), fifo(7, 0, False, True, 0, fsw=1), fifo(5, 2, True, True, 0, fsw=1), fifo(4, 0, False, False, 0, fsw=2)]
@@ -141,6 +144,9 @@ q12 += [{"harness": "vxH12Dialect", "args": ["1"], "files": F12, "reach": ["rsta
 q12 += [{"harness": "vxH12DialectE2E", "args": [b(s), b(a)], "files": F12, "preempt": 1, "reach": ["done"],
          "bounds": f"real NewConn, server dotu={b(s)}, client asks for {'9P2000.u' if a else '9P2000'}; then Tstat (Dir fields symbolic, strings 0..1) and a Tclunk of an unknown fid: both frames equal the reference encoding of the negotiated dialect; <= 1 preemption"} for s in (True, False) for a in (True, False)]
 q12 += [client(True, 1), client(True, 4)]
+q12 += [{"harness": "vxH12Twice", "args": [], "files": F12, "reach": ["done"], "bounds": "two valid Tversions on one connection, each with a symbolic dialect request and any msize >= 24, server dialect symbolic: the second negotiation yields .u iff it asks for it and the server speaks it, msize within both limits"}]
+q12 += [{"harness": "vxH13SrvOversize", "args": ["32", "1"], "files": ["api", "ref_wire", "kit_srv", "kit_net", "c13_seg_srv", "over_c13"], "preempt": 0, "free_switches": -1, "reach": ["done"],
+         "bounds": "receive loop, msize 32: a well-formed frame of msize+17 bytes between ordinary requests, one segment and every single cut: never executed or answered, connection dropped (workload shared with C13)"}]
 q12 += [{"harness": "vxH12Retry", "args": [], "files": F12, "reach": ["done"], "bounds": "a Tversion with symbolic msize < 24 (refused) followed by one with symbolic msize >= 24, server msize symbolic: the refusal changes nothing, the retry negotiates min"}]
 # error replies at a tiny msize must fit it in both dialects (shared with C06's one-step harness)
 q12 += [{"harness": "vxH06Step", "args": [str(t), "true", "24"], "files": ["api", "ref_wire", "kit_srv", "kit_net", "c06"], "reach": ["done"],
